@@ -95,3 +95,13 @@ func VerifC20Web(p *profile.Profile, opt *plugin.Options, settingsFile string) (
 		return rec.Code, rec.Body.String()
 	}, nil
 }
+
+// VerifC20GetField reads one option back through the option store's accessor.
+func VerifC20GetField(name string) string {
+	c := currentConfig()
+	f, ok := configFieldMap[name]
+	if !ok {
+		return "<unknown field>"
+	}
+	return c.get(f)
+}
